@@ -568,7 +568,10 @@ func C01(run *mon.Run) {
 		k := randScalar(r)
 		sk := skFromInt(k)
 		h := crypto.NewExpandMsgXOFKMAC128("hdr-hunt")
-		for j := 0; j < 600; j++ {
+		// (one accepted point with the sign bit set and one with the sign bit clear per key: which flag
+		// combination collides with the canonical encoding depends on it)
+		seenSign := [2]bool{}
+		for j := 0; j < 4000 && !(seenSign[0] && seenSign[1]); j++ {
 			msg := []byte(fmt.Sprintf("hdr-hunt-%d-%d", i, j))
 			H, err := hashPoint(msg, h, "kmac:hdr-hunt")
 			if err != nil {
@@ -576,9 +579,10 @@ func C01(run *mon.Run) {
 			}
 			E := ref.E1.Mul(H, k)
 			enc := ref.EncodeG1(E)
-			if enc[0]&0x1F != 0 {
+			if enc[0]&0x1F != 0 || seenSign[(enc[0]>>5)&1] {
 				continue
 			}
+			seenSign[(enc[0]>>5)&1] = true
 			for f := 0; f < 8; f++ {
 				c := append([]byte{}, enc...)
 				c[0] = byte(f << 5)
@@ -589,10 +593,10 @@ func C01(run *mon.Run) {
 				verifyExpect(run, "C01", sk.PublicKey(), cand{b: c, kind: "bitflip"}, msg, h, false, "hdr-hunt")
 			}
 			run.Count("hdr-hunt.hits", 1)
-			break
+			run.Count(fmt.Sprintf("hdr-hunt.sign-%d", (enc[0]>>5)&1), 1)
 		}
 	}
-	run.Require(run.Counter("hdr-hunt.hits") > 0, "no signature with a flags-only header byte found")
+	run.Require(run.Counter("hdr-hunt.sign-0") > 0 && run.Counter("hdr-hunt.sign-1") > 0, "no signature with a flags-only header byte found for both values of the sign bit")
 	run.Require(run.Counter("triples") >= int64(nTriples*9/10), "fewer triples completed than planned")
 	run.Require(run.Counter("accepted.E") >= run.Counter("triples"), "reference signature accepted fewer times than triples")
 	for _, k := range []string{"bitflip", "neg", "plus-T3", "plus-T11", "plus-cofactor", "plus-g1", "x-plus-p", "flags", "infinity", "infinity-garbage", "length", "random", "other-message", "other-key", "other-tag"} {
